@@ -128,7 +128,7 @@ def h_rest_sched_patternutil_patternutil_go : Nat := 0x3daef2ecd52f8982
 def h_rest_sched_dag_executor_executor_go : Nat := 0xff3866fd225f7261
 
 /-- hash of the normalised skeleton of * (internal/dag/executor/command.go) -/
-def h_rest_sched_dag_executor_command_go : Nat := 0x137f6e1407c694ea
+def h_rest_sched_dag_executor_command_go : Nat := 0xb59f538fbe36a633
 
 def dryGuards : List String := ["setupNode: if !sc.dry { return node.setup(sc.logDir, sc.requestID) }; return nil", "teardownNode: if !sc.dry { return node.teardown() }; return nil", "execNode: if !sc.dry { return n.Execute(ctx) }; return nil"]
 
